@@ -7,11 +7,13 @@ import Driver.Proto
 import Driver.Ops.Str
 import Driver.Ops.Ignore
 import Driver.Ops.Glob
+import Driver.Ops.Spdx
 open Proto
 
 def step (line : String) : String :=
   let fields := line.splitOn "\t"
-  match Ops.stepStr fields <|> Ops.stepIgnore fields <|> Ops.stepGlob fields <|> Ops.stepDep5 fields with
+  match Ops.stepStr fields <|> Ops.stepIgnore fields <|> Ops.stepGlob fields <|> Ops.stepDep5 fields
+    <|> Ops.stepSpdx fields with
   | some out => out
   | none => "bad-op"
 
